@@ -73,6 +73,11 @@ where
             let res: &mut GLWECompressed<&mut [u8]> = &mut res.to_mut();
             let mut source_xa: Source = Source::new(seed_xa);
             let cols: usize = (res.rank() + 1).into();
+            assert_eq!(
+                pt.to_ref().base2k(),
+                res.base2k(),
+                "plaintext and ciphertext must share base2k (the plaintext is added limb-wise)"
+            );
             assert!(
                 scratch.available() >= self.glwe_compressed_encrypt_sk_tmp_bytes(res),
                 "scratch.available(): {} < GLWECompressedEncryptSk::glwe_compressed_encrypt_sk_tmp_bytes: {}",
